@@ -61,6 +61,12 @@ def make_editor(schema, frags):
             else:
                 yield ("subselection_on_leaf", sel[:i] + (Field(s.name, [Field("x")], s.alias, s.args),) + sel[i + 1:])
                 yield ("subselection_on_leaf", sel[:i] + (Field(s.name, [Field("__typename")], s.alias, s.args),) + sel[i + 1:])
+                # ... a sub-selection made of fragments only (no field at all in it)
+                any_frag = next(iter(frags), None)
+                if any_frag is not None:
+                    yield ("subselection_on_leaf", sel[:i] + (Field(s.name, [Spread(any_frag)], s.alias, s.args),) + sel[i + 1:])
+                yield ("subselection_on_leaf", sel[:i] + (Field(s.name, [Inline(parent, [Field("__typename")])], s.alias, s.args),) + sel[i + 1:])
+                yield ("subselection_on_leaf", sel[:i] + (Field(s.name, [Spread("Undefined")], s.alias, s.args),) + sel[i + 1:])
 
     return editor
 
